@@ -128,6 +128,11 @@ func (Precompile).WithdrawDelegatorRewards
     // C16 (balances mirror the bank module): the EVM balance mirror of the calling contract is credited only when it is the
     // delegator, with the reward paid in the EVM (bond) denomination (finding G5, fixed)
     ensures mirror: result.1 == nil ==> sdb_delta == ite(caller == del, upd(old(sdb_delta), caller, old(sdb_delta)[caller] + paid[bond_denom(oldheap(*p.stakingKeeper.Keeper), ctx)]), old(sdb_delta))
+    // ---- C02: the Cosmos-side credit is mirrored into the EVM's cached balance of the account that received it, when that account
+    // is in the StateDB cache (the signer and the calling contract always are), and nobody else's mirror moves
+    // FINDING F5: the code mirrors 'caller == delegator' instead of the credited account
+    ensures c02_mirrored: result.1 == nil ==> sdb_delta == ite(withdraw_to(old(cstate), ctx_wrap(ctx), bech_of(del)) == caller || withdraw_to(old(cstate), ctx_wrap(ctx), bech_of(del)) == origin,
+            upd(old(sdb_delta), withdraw_to(old(cstate), ctx_wrap(ctx), bech_of(del)), old(sdb_delta)[withdraw_to(old(cstate), ctx_wrap(ctx), bech_of(del))] + paid[bond_denom(oldheap(*p.stakingKeeper.Keeper), ctx)]), old(sdb_delta))
 
 // C04: commission is paid out only on the validator's own call (signer or calling contract is the validator's account).
 // C16: the call is the native MsgWithdrawValidatorCommission.
@@ -146,4 +151,8 @@ func (Precompile).WithdrawValidatorCommission
     ensures native_fail: decoded && (who == origin || who == caller) && !wdcomm_ok(old(cstate), ctx_wrap(ctx), val) ==> result.1 != nil
     ensures native_ok: result.1 == nil ==> wdcomm_ok(old(cstate), ctx_wrap(ctx), val)
     ensures native_effect: result.1 == nil ==> cstate == wdcomm_post(old(cstate), ctx_wrap(ctx), val)
+    // ---- C02: as for rewards; the commission is credited to the withdraw address of the validator's account
+    // FINDING F5: the commission is never mirrored
+    ensures c02_mirrored: result.1 == nil && (withdraw_to(old(cstate), ctx_wrap(ctx), bech_of(who)) == caller || withdraw_to(old(cstate), ctx_wrap(ctx), bech_of(who)) == origin)
+            ==> sdb_delta == upd(old(sdb_delta), withdraw_to(old(cstate), ctx_wrap(ctx), bech_of(who)), old(sdb_delta)[withdraw_to(old(cstate), ctx_wrap(ctx), bech_of(who))] + wdcomm_amount(old(cstate), ctx_wrap(ctx), val)[bond_denom(oldheap(*p.stakingKeeper.Keeper), ctx)])
 @*/
